@@ -228,3 +228,11 @@ package ethereum
 //@   ensures [as-passed] w != nil && w.contract == contract && w.chainID == chainID && w.msgChan == messageEvents && w.setChan == setEvents && w.obsvReqC == obsvReqC && w.unsafeDevMode == unsafeDevMode && w.waitForConfirmations == waitForConfirmations && w.pollIntervalMs == pollIntervalMs
 //@   ensures [starts-empty] w.pending != nil && len(w.pending) == 0 && w.maxWaitConfirmations == 60
 //@   modifies *
+
+// the head poller reads heads with the finality mode it was constructed with, for as long as
+// it lives (no fallback to "latest"): the watcher's zero-confirmation rule on Ethereum rests on it
+//@ func NewBlockPollConnector(ctx context.Context, baseConnector Connector, delay time.Duration, useFinalized bool) (b *BlockPollConnector, err error)
+//@   props C10
+//@   ensures [rejects] err != nil ==> b == nil
+//@   ensures [mode-as-requested] err == nil ==> b != nil && b.useFinalized == useFinalized && b.Connector == baseConnector && b.enabled != nil
+//@   modifies fresh BlockPollConnector.*, lib:atomic.Bool.v
